@@ -45,4 +45,38 @@ def search(payload):
                     return {'found': True, 'input': {'boxes': boxes, 'query': q, 'index': which, 'built_after': k},
                             'observed': sorted(map(str, got)), 'expected': sorted(map(str, want))}
         prev = (idx, bs)
+    r = float_sweep({'seed': payload.get('seed', 0), 'n': 300})
+    if r.get('found'):
+        return r
     return {'found': False}
+
+
+def float_sweep(payload):
+    """binary64 inputs that are not dyadic (multiples of 0.1), many boxes sharing edges / corners with the query; plus a call
+    history: the caller edits a returned set and asks again (results must not be shared between calls).  The brute-force oracle
+    only COMPARES the given floats, so it is exact on binary64 inputs."""
+    rnd = random.Random(payload.get('seed', 0) + 7)
+    tried = 0
+    for _ in range(int(payload.get('n', 300))):
+        n = rnd.randint(1, 12)
+        bs = []
+        for i in range(n):
+            x1, y1 = rnd.randint(0, 12) * 0.1, rnd.randint(0, 12) * 0.1
+            bs.append((i, (x1, y1, x1 + rnd.choice([0, 1, 2, 3]) * 0.1, y1 + rnd.choice([0, 1, 2, 3]) * 0.1)))
+        idx = rtree.Index(list(bs))
+        for _ in range(6):
+            x, y = rnd.randint(-1, 13) * 0.1, rnd.randint(-1, 13) * 0.1
+            q = (x, y, x + rnd.choice([0, 1, 2]) * 0.1, y + rnd.choice([0, 1, 2]) * 0.1)
+            tried += 1
+            got = idx.intersection(q)
+            want = brute(bs, q)
+            if got != want:
+                return {'found': True, 'input': {'boxes': bs, 'query': q}, 'observed': sorted(got), 'expected': sorted(want), 'tried': tried}
+            if got:
+                got.discard(next(iter(got)))          # the caller edits ITS result ...
+                again = idx.intersection(q)           # ... and asks again
+                if again != want:
+                    return {'found': True, 'input': {'boxes': bs, 'query': q, 'history': 'same query after the caller edited the first result'},
+                            'observed': sorted(again), 'expected': sorted(want), 'tried': tried}
+    return {'found': False, 'tried': tried, 'distinct': tried,
+            'bound': f'{payload.get("n", 300)} random box sets on a 0.1 grid (non-dyadic binary64 coordinates, shared edges/corners) x 6 queries, each repeated after the caller edited the result'}
